@@ -133,8 +133,11 @@ func (g *Gen) WAddr() map[wallet.BackendID]wallet.Address {
 	return map[wallet.BackendID]wallet.Address{0: g.Account().Address()}
 }
 
+// RAddr: a single-entry wire address map; the key is mostly backend 0 but the wire format carries any
+// int32 key, so other keys are exercised too.
 func (g *Gen) RAddr() map[wallet.BackendID]wire.Address {
-	return map[wallet.BackendID]wire.Address{0: simwire.NewRandomAddress(g.R)}
+	keys := []int{0, 0, 0, 1, 2, 7, 300}
+	return map[wallet.BackendID]wire.Address{wallet.BackendID(keys[g.R.Intn(len(keys))]): simwire.NewRandomAddress(g.R)}
 }
 
 func (g *Gen) RAddrs(n int) []map[wallet.BackendID]wire.Address {
@@ -212,13 +215,13 @@ func (g *Gen) BaseProp() client.BaseChannelProposal {
 }
 
 func (g *Gen) Update() client.ChannelUpdateMsg {
-	return client.ChannelUpdateMsg{ChannelUpdate: client.ChannelUpdate{State: g.State(), ActorIdx: channel.Index(g.R.Intn(4))}, Sig: g.Sig()}
+	return client.ChannelUpdateMsg{ChannelUpdate: client.ChannelUpdate{State: g.State(), ActorIdx: g.Index()}, Sig: g.Sig()}
 }
 
 func (g *Gen) IndexMap() []channel.Index {
 	m := make([]channel.Index, g.R.Intn(4))
 	for i := range m {
-		m[i] = channel.Index(g.R.Intn(4))
+		m[i] = g.Index()
 	}
 	return m
 }
